@@ -32,7 +32,7 @@ def regenerate(ctx):
         if pyast_np.write_if_changed(GEN_PATH, text):
             ctx.notes.append("coq/generated/SyncGen.v regenerated from %s (content changed)" % common.REPO)
         return []
-    except (pyast_np.Unsupported, OSError, SyntaxError, KeyError, IndexError, AttributeError, TypeError) as e:
+    except Exception as e:  # noqa: fail-closed whatever goes wrong
         GEN_STATE["translated"] = False
         pyast_np.write_if_changed(GEN_PATH, pyast_sync.stub())
         return [{"kind": "obligation", "failing_input": False, "theorem": "Evo.SyncTie.matching_time_indices_gen_is_model (translator tie)",
